@@ -81,7 +81,7 @@ def check_merge(c):
 
 
 # ------------------------------------------------------------------ part 2: statistics()
-OBS = ["SigmaZ", "SigmaX", "SigmaY", "NI", "NIp", "composite", "composite2", "SWAP", "Det", "Site0x2", "Site0neg"]
+OBS = ["SigmaZ", "SigmaX", "SigmaY", "NI", "NIp", "composite", "composite2", "SWAP", "Det", "Site0x2", "Site0neg", "composite_abs", "Nested", "SigmaZ", "composite_abs"]
 
 
 def make_obs(name, n):
@@ -100,6 +100,23 @@ def make_obs(name, n):
         for i in range({"deep_a": 9, "deep_b": 9, "deep_c": 14}[name]):
             o = o + 1 if i % 3 else o - 0.5
         return o + {"deep_a": 2, "deep_b": 5, "deep_c": 2}[name]
+    if name == "composite_abs":
+        return 2 * SigmaZ(absolute=True) + 1          # shares its leaf's NAME with the plain SigmaZ, not its values
+    if name == "Nested":
+        class Nested(ObservableBase):
+            """re-entrant use: a user observable whose apply() itself takes statistics - of another observable on ANOTHER small state, and
+            of the batch it was handed - before returning its own per-sample values"""
+            def __init__(self):
+                self.name, self.symbol = "Nested", "N"
+                self.other = None
+            def apply(self, nn_state, samples):
+                from qucumber.nn_states import PositiveWaveFunction
+                if self.other is None:
+                    self.other = PositiveWaveFunction(2, 2, gpu=False)
+                SigmaZ().statistics(self.other, num_samples=5, num_chains=2, burn_in=1, steps=1)
+                SigmaX().statistics_from_samples(nn_state, samples.clone())
+                return samples.double().sum(-1) * 0.5 - 0.125
+        return Nested()
     if name == "NIp":
         return NeighbourInteraction(periodic_bcs=True, c=1)
     if name == "composite":
